@@ -82,6 +82,24 @@ def handleApi : Handler := fun st op args =>
           | .ok f => s!"{f.cfg.size},{f.whiteStones.toNat}"
           | .error e => fmtErr e
         fmtOutcome d.over d.winner (d.reason == .road) d.whiteFlats d.blackFlats ++ " " ++ accStr q ++ " new=" ++ fresh)
+  | "newplay", size :: pieces :: caps :: bwt :: toks =>
+    match size.toNat?, pieces.toNat?, caps.toNat? with
+    | some n, some pc, some cp =>
+      match Pos.new { size := n, pieces := pc, capstones := cp, blackWinsTies := bwt != "0" } with
+      | .error e => some (st, fmtErr e)
+      | .ok p0 =>
+        let rec go (p : Pos) (i : Nat) : List String → String
+          | [] => "ok " ++ fmtPos p
+          | t :: ts =>
+            match parseMove t with
+            | none => "bad-move"
+            | some m =>
+              match p.apply st.basis m with
+              | .ok q => go q (i + 1) ts
+              | .error (.panic e) => fmtErr (.panic e)
+              | .error _ => s!"err@{i} " ++ fmtPos p
+        some (st, go p0 0 toks)
+    | _, _, _ => some (st, "bad-op")
   | "api.flood", [n, w, s] =>
     match n.toNat?, w.toNat?, s.toNat? with
     | some n, some w, some s =>
